@@ -19,6 +19,7 @@ Counter p_moved_from_use("probe.moved_from_pointer_observed");
 Counter p_assign_empty("probe.optional_assign_empty_to_engaged");
 Counter p_read_empty("probe.optional_read_empty");
 Counter p_copy_mutate("probe.optional_copy_then_replace_one");
+Counter p_self_assign("probe.optional_self_copy_assignment");
 Counter p_fault_make("probe.fault_inside_make_quaint");
 Counter p_fault_vec("probe.fault_inside_vector_growth");
 Counter p_fault_opt("probe.fault_inside_optional_copy");
@@ -157,6 +158,7 @@ struct OptVal
     {
         throw_site();
         born(&h, this, 3, o.h.val);
+        o.h.val = -7; // moved-from
     }
     OptVal& operator=(const OptVal& o)
     {
@@ -669,7 +671,11 @@ struct Exec
                 NoFault nf0;
                 OptVal tmp(val);
                 if (op.kind == K_OPT_VALUE)
+                {
                     res = guarded([&] { np = new Opt(static_cast<const OptVal&>(tmp)); });
+                    if (tmp.h.val != val)
+                        fail("C18/optional:aliased", op, opi, arg, "constructing from a const value modified the caller's object");
+                }
                 else
                     res = guarded([&] { np = new Opt(std::move(tmp)); });
             }
@@ -706,12 +712,14 @@ struct Exec
         case K_OPT_COPY_ASSIGN:
         {
             int from = static_cast<int>(((op.a[1] % NOPT) + NOPT) % NOPT);
-            if (from == oi || !opt[from] || !opt[oi])
+            if (!opt[from] || !opt[oi])
             {
                 executed = false;
                 break;
             }
-            arg = std::string(mopt[oi].engaged ? "target-engaged" : "target-empty") + (mopt[from].engaged ? ",from-engaged" : ",from-empty");
+            if (from == oi)
+                p_self_assign++; // a = a leaves the optional as it is
+            arg = std::string(mopt[oi].engaged ? "target-engaged" : "target-empty") + (mopt[from].engaged ? ",from-engaged" : ",from-empty") + (from == oi ? ",self" : "");
             if (mopt[oi].engaged && !mopt[from].engaged)
                 p_assign_empty++;
             res = guarded([&] { *opt[oi] = static_cast<const Opt&>(*opt[from]); });
@@ -740,7 +748,11 @@ struct Exec
                 NoFault nf0;
                 OptVal tmp(val);
                 if (op.kind == K_OPT_ASSIGN_VALUE)
+                {
                     res = guarded([&] { *opt[oi] = static_cast<const OptVal&>(tmp); });
+                    if (tmp.h.val != val)
+                        fail("C18/optional:aliased", op, opi, arg, "assigning from a const value modified the caller's object");
+                }
                 else
                     res = guarded([&] { *opt[oi] = std::move(tmp); });
             }
@@ -966,7 +978,16 @@ public:
     Outcome execute(const Plan& plan, const Config&) override
     {
         Exec x;
-        return x.run(plan);
+        Outcome o = x.run(plan);
+        if (o.violated && o.v.sig.find("raw-storage") != std::string::npos)
+        {
+            // Blocks that were allocated inside the operations and are still there.  Memory that code
+            // allocates once and keeps (a function-local static, a lazily built table) is not a leak
+            // of these operations: it does not come back when the same history runs again.
+            Exec y;
+            return y.run(plan);
+        }
+        return o;
     }
     bool fault_ok(const Op& op, int) const override
     {
